@@ -7,9 +7,9 @@ from vlib import core, gen
 
 PROP = "C06"
 META = {
-    "technique": "Coq proof: refinement of an executable model of linkedBuffer/bufferSlice/allocator/moveTo to a byte queue, by induction on the op sequence; tie: differential execution of the real linkedBuffer pair (real moveToWithoutLock/readMore, heap-backed bufferManager, small classes) against the model on generated op sequences, plus an independent byte-queue oracle",
-    "level_text": "see Props/C06.v: the full statement C06_full is kept as a Definition (its two former size-0 refutations are repaired and kept as regression theorems + harness cases); the refinement theorems are proved for all receive-buffer shapes, all sizes 0 <= n <= Len, all op sequences of the covered op set (reader side + fallback transport); the remaining ops are covered by the correspondence harness.",
-    "level_note": "Trusted: coqc kernel; the hand-written model is tied to /repo by sampled differential runs (sizes relative to slice capacities, exhaustion, fallback); negative sizes and uint32 truncation of sizes are outside the model; Stream.Flush is mirrored without queue/socket (level (i)).",
+    "technique": "Coq proof: refinement of an executable model of linkedBuffer/bufferSlice/allocator/done/moveTo to a byte queue via a global inductive invariant (store well-formedness, ownership of every slot as multiset accounting, send buffer, header chains, receive buffer) preserved by every operation; tie: differential execution of the real linkedBuffer pair (real moveToWithoutLock/readMore, heap-backed bufferManager, small classes) against the model on generated op sequences, plus an independent byte-queue oracle",
+    "level_text": "Theorem C06 (= C06_full): for every size-class configuration with positive capacities, every slot count, every op sequence over the whole op set (all writer ops, Flush, all reader ops of any size incl. 0 and more than available, both releases, recycle, the reused reset slice, allocate/overwrite/free by other owners) the model never panics and agrees op by op with the byte queue (bytes, n, Len of both buffers, Peek consumes nothing, oversized reads block), independent of transport (single slice, multi-slice, heap fallback, chains with empty slices, fallback after shm). C06_no_panic, C06_step (the invariant), C06_move_to (transfer lemma), C06_write_bytes / C06_reserve (writer refinement in every allocator state), size-0 regression theorems.",
+    "level_note": "Trusted: coqc kernel; the hand-written model is tied to /repo by sampled differential runs (sizes relative to slice capacities, exhaustion, fallback, empty slices in chains); negative sizes and uint32 truncation of sizes are outside the model; sequential (one writer, one reader per direction; the lock-free allocator is C01/C02); Stream.Flush is mirrored without queue/socket (level (i)).",
 }
 
 KOP = {"WB": "WBytes", "WS": "WString", "WR": "WReserve", "WW": "WWrite"}
